@@ -12,6 +12,20 @@
 //	        Channel.NewStream with a recording RoundTripper that captures the
 //	        GRPC-Timeout header;
 //	e2e     the same durations, client -> common.HandlerRT(server) -> handler.
+//
+// The client and e2e clauses are crossed with two more dimensions of the call:
+//
+//	creds   time that passes between the entry of the call and the request
+//	        being built: per-RPC credentials (grpc.PerRPCCredentials) whose
+//	        GetRequestMetadata consumes a controlled amount of time. "Transit"
+//	        starts at the instant GetRequestMetadata returned (the last instant
+//	        at which the request is known not to have been sent yet), as with
+//	        grpc-go, which encodes the timeout after the credentials answered;
+//	md      the caller's outgoing metadata: none, an unrelated key, and a
+//	        "grpc-timeout" key with values that denote less / more than the
+//	        context's deadline, values that are no timeouts, and two values.
+//	        The context's deadline decides, the metadata entry never does
+//	        (grpc-go drops that reserved key from the caller's metadata).
 package main
 
 import (
@@ -33,6 +47,7 @@ import (
 	"github.com/fullstorydev/grpchan/httpgrpc"
 	"google.golang.org/grpc"
 	"google.golang.org/grpc/codes"
+	"google.golang.org/grpc/metadata"
 	"google.golang.org/grpc/status"
 	"google.golang.org/protobuf/proto"
 	"google.golang.org/protobuf/types/known/wrapperspb"
@@ -382,7 +397,53 @@ type clientCase struct {
 	NoDeadline  bool   `json:"no_deadline,omitempty"`
 	RemainingNs int64  `json:"remaining_ns"`
 	Label       string `json:"label"`
+	// per-RPC credentials: "" = none, otherwise GetRequestMetadata returns
+	// only after CredsDelayNs have passed
+	Creds        string `json:"creds,omitempty"`
+	CredsDelayNs int64  `json:"creds_delay_ns,omitempty"`
+	// caller's outgoing metadata: "" = none
+	MDKey  string   `json:"md_key,omitempty"`
+	MDVals []string `json:"md_values,omitempty"`
 }
+
+func (c clientCase) md() mdDim { return mdDim{c.MDKey, c.MDVals} }
+
+func (c clientCase) name() string {
+	n := fmt.Sprintf("%s/%s/%s", c.Kind, c.Path, c.Label)
+	if c.Creds != "" {
+		n += "/creds=" + c.Creds
+	}
+	if c.MDKey != "" {
+		n += "/md:" + c.md().label()
+	}
+	return n
+}
+
+// slowCreds are per-RPC credentials that return only after delay has passed on
+// the clock and record the instants around that.
+type slowCreds struct {
+	delay time.Duration
+	o     *callObs
+}
+
+func (s slowCreds) GetRequestMetadata(ctx context.Context, uri ...string) (map[string]string, error) {
+	t0 := time.Now()
+	for {
+		left := s.delay - time.Since(t0)
+		if left <= 0 {
+			break
+		}
+		time.Sleep(left) // actuator, not oracle: the loop ends on the clock reading
+	}
+	if s.o.CredsCalls == 0 {
+		s.o.Tc0 = t0
+	}
+	s.o.CredsCalls++
+	s.o.Tc1 = time.Now() // nothing of the request can have been built before this
+	return map[string]string{"authorization": "bearer c09"}, nil
+}
+
+func (slowCreds) RequireTransportSecurity() bool { return false }
 
 func timeoutValues(h http.Header) []string {
 	var out []string
@@ -399,12 +460,32 @@ var errRecorded = errors.New("c09: request recorded, no response")
 type callObs struct {
 	Ta, Dl time.Time // instant before the call = base of the deadline; the caller's deadline
 	Tb     time.Time // instant inside RoundTrip
-	Called bool
-	Values []string
-	After  time.Time
-	Err    error
-	Panic  string
-	H      hObs
+	// first entry into / last return from GetRequestMetadata
+	Tc0, Tc1   time.Time
+	CredsCalls int
+	Called     bool
+	Values     []string
+	After      time.Time
+	Err        error
+	Panic      string
+	H          hObs
+}
+
+// sendBase is the latest recorded instant at which the request is known not to
+// have been built yet: the return of the credentials if they were consulted,
+// otherwise the instant before the call.
+func (o *callObs) sendBase() time.Time {
+	if o.CredsCalls > 0 {
+		return o.Tc1
+	}
+	return o.Ta
+}
+
+func (o *callObs) credsObs() string {
+	if o.CredsCalls == 0 {
+		return ""
+	}
+	return fmt.Sprintf(", credentials consulted t_call+%v..t_call+%v", o.Tc0.Sub(o.Ta), o.Tc1.Sub(o.Ta))
 }
 
 // call performs one RPC with a fresh context whose deadline is exactly
@@ -423,16 +504,23 @@ func call(c clientCase, backend http.RoundTripper) *callObs {
 	})
 	u, _ := url.Parse("http://example.test/")
 	ch := &httpgrpc.Channel{Transport: rt, BaseURL: u}
-	guard(fmt.Sprintf("%s/%s/%s", c.Kind, c.Path, c.Label), func() {
+	var opts []grpc.CallOption
+	if c.Creds != "" {
+		opts = append(opts, grpc.PerRPCCredentials(slowCreds{delay: time.Duration(c.CredsDelayNs), o: o}))
+	}
+	guard(c.name(), func() {
 		defer func() {
 			if p := recover(); p != nil {
 				o.Panic = fmt.Sprint(p)
 			}
 		}()
-		cur = &o.H
-		defer func() { cur = nil }()
+		cur, curCall = &o.H, o
+		defer func() { cur, curCall = nil, nil }()
 		ctx, cancel := context.WithCancel(context.Background())
 		defer cancel()
+		if c.MDKey != "" {
+			ctx = metadata.NewOutgoingContext(ctx, metadata.MD{c.MDKey: append([]string(nil), c.MDVals...)})
+		}
 		o.Ta = time.Now()
 		if !c.NoDeadline {
 			o.Dl = o.Ta.Add(time.Duration(c.RemainingNs))
@@ -441,7 +529,7 @@ func call(c clientCase, backend http.RoundTripper) *callObs {
 			defer c2()
 		}
 		if c.Path == "stream" {
-			cs, err := ch.NewStream(ctx, bidiDesc, "/t.S/B")
+			cs, err := ch.NewStream(ctx, bidiDesc, "/t.S/B", opts...)
 			if err != nil {
 				o.Err = err
 				o.After = time.Now()
@@ -463,7 +551,7 @@ func call(c clientCase, backend http.RoundTripper) *callObs {
 			}
 		} else {
 			var out wrapperspb.StringValue
-			o.Err = ch.Invoke(ctx, "/t.S/U", wrapperspb.String("req"), &out)
+			o.Err = ch.Invoke(ctx, "/t.S/U", wrapperspb.String("req"), &out, opts...)
 		}
 		o.After = time.Now()
 	})
@@ -489,10 +577,26 @@ func recordingBackend() http.RoundTripper {
 // "extended" could never be observed.
 func e2eBackend() http.RoundTripper {
 	inner := common.HandlerRT(server())
-	return common.RT(func(r *http.Request) (*http.Response, error) {
+	return common.RT(func(r *http.Request) (resp *http.Response, err error) {
+		// for streams the round trip runs on a goroutine of the library: a panic
+		// of the server must be caught here to be reported with its input
+		o := curCall
+		defer func() {
+			if p := recover(); p != nil {
+				if o != nil && o.Panic == "" {
+					o.Panic = "server: " + fmt.Sprint(p)
+				}
+				resp, err = nil, errServerPanic
+			}
+		}()
 		return inner.RoundTrip(r.WithContext(context.Background()))
 	})
 }
+
+var (
+	errServerPanic = errors.New("c09: the server panicked")
+	curCall        *callObs // cases run strictly one at a time
+)
 
 func addBig(d time.Duration, e time.Duration) *big.Int {
 	return new(big.Int).Add(big.NewInt(int64(d)), big.NewInt(int64(e)))
@@ -509,9 +613,24 @@ func notSent(c clientCase, o *callObs, obs string) (string, string) {
 	if !c.NoDeadline && status.Code(o.Err) == codes.DeadlineExceeded {
 		return "spurious-expiry", obs
 	}
-	inconclusive("%s/%s/%s: %s", c.Kind, c.Path, c.Label, obs)
+	inconclusive("%s: %s", c.name(), obs)
 	return "", obs
 }
+
+// remainingAt is the caller's remaining time at instant t (t_call <= t), exact
+// also for deadlines whose distance does not fit the monotonic clock: the
+// remaining duration at t_call is known exactly, and t - t_call is a difference
+// of monotonic readings. Never below zero.
+func remainingAt(c clientCase, o *callObs, t time.Time) *big.Int {
+	r := addBig(time.Duration(c.RemainingNs), -t.Sub(o.Ta))
+	if r.Sign() < 0 {
+		return big.NewInt(0)
+	}
+	return r
+}
+
+// hasTimeoutMD: the caller's outgoing metadata carries a grpc-timeout entry.
+func hasTimeoutMD(c clientCase) bool { return strings.EqualFold(c.MDKey, timeoutKey) }
 
 func checkClient(c clientCase) (clause, obs string, nontrivial bool) {
 	o := call(c, recordingBackend())
@@ -519,35 +638,42 @@ func checkClient(c clientCase) (clause, obs string, nontrivial bool) {
 		return "panic", "panic: " + o.Panic, false
 	}
 	if !o.Called {
-		cl, ob := notSent(c, o, fmt.Sprintf("RoundTrip never called, err=%v", o.Err))
+		cl, ob := notSent(c, o, fmt.Sprintf("RoundTrip never called, err=%v%s", o.Err, o.credsObs()))
 		return cl, ob, false
 	}
-	obs = fmt.Sprintf("GRPC-Timeout=%q captured at t_call+%v", o.Values, o.Tb.Sub(o.Ta))
+	obs = fmt.Sprintf("GRPC-Timeout=%q captured at t_call+%v%s", o.Values, o.Tb.Sub(o.Ta), o.credsObs())
 	if c.NoDeadline {
+		// "with no caller deadline the transport adds none": nothing may be sent
+		// that a server would turn into a deadline (or reject as a malformed one)
 		if len(o.Values) != 0 {
-			return "header-without-deadline", obs, false
+			return "header-without-deadline", obs, hasTimeoutMD(c)
 		}
-		return "", obs, false
+		return "", obs, hasTimeoutMD(c)
 	}
 	obs += fmt.Sprintf(", remaining at t_call=%v", time.Duration(c.RemainingNs))
 	if len(o.Values) == 0 {
 		return "missing-header", obs, true
 	}
-	f := parseRef(o.Values[0])
-	if !f.Valid {
-		return "malformed-header", obs, true
-	}
-	// the handler of a zero-transit server gets t_send+E, t_send in [t_call, t_rt]:
-	//   not later than caller+transit+1ms   <=  E <= remaining(t_call) + 1ms
+	// the handler of a zero-transit server gets t_send+E, with t_send in
+	// [t_base, t_rt], t_base = the return of the credentials (t_call without):
+	//   not later than caller+transit+1ms   <=  E <= remaining(t_base) + 1ms
 	//   not earlier than caller-1ms         <=  E >= remaining(t_rt) - 1ms
-	upper := addBig(time.Duration(c.RemainingNs), time.Millisecond)
+	// Which of several GRPC-Timeout values a server reads is its own business
+	// (this package's takes the first, grpc-go's the last): each must comply.
+	upper := new(big.Int).Add(remainingAt(c, o, o.sendBase()), big.NewInt(int64(time.Millisecond)))
 	lower := addBig(o.Dl.Sub(o.Tb), -time.Millisecond)
-	obs += fmt.Sprintf(", encodes %sns, allowed [%s, %s]ns", f.D, lower, upper)
-	if f.D.Cmp(upper) > 0 {
-		return "extended", obs, true
-	}
-	if f.D.Cmp(lower) < 0 {
-		return "shortened", obs, true
+	obs += fmt.Sprintf(", allowed [%s, %s]ns", lower, upper)
+	for _, v := range o.Values {
+		f := parseRef(v)
+		if !f.Valid {
+			return "malformed-header", obs + fmt.Sprintf(", %q is not a timeout", v), true
+		}
+		if f.D.Cmp(upper) > 0 {
+			return "extended", obs + fmt.Sprintf(", %q encodes %sns", v, f.D), true
+		}
+		if f.D.Cmp(lower) < 0 {
+			return "shortened", obs + fmt.Sprintf(", %q encodes %sns", v, f.D), true
+		}
 	}
 	return "", obs, true
 }
@@ -558,37 +684,93 @@ func checkE2E(c clientCase) (clause, obs string, nontrivial bool) {
 		return "panic", "panic: " + o.Panic, false
 	}
 	if !o.H.Reached {
-		cl, ob := notSent(c, o, fmt.Sprintf("handler never reached (RoundTrip called: %v), err=%v", o.Called, o.Err))
+		cl, ob := notSent(c, o, fmt.Sprintf("handler never reached (RoundTrip called: %v), err=%v%s", o.Called, o.Err, o.credsObs()))
 		return cl, ob, false
 	}
-	obs = fmt.Sprintf("GRPC-Timeout=%q, handler reached at t_call+%v", o.Values, o.H.T.Sub(o.Ta))
+	obs = fmt.Sprintf("GRPC-Timeout=%q%s, handler reached at t_call+%v", o.Values, o.credsObs(), o.H.T.Sub(o.Ta))
 	if c.NoDeadline {
 		if o.H.HasDl {
-			return "deadline-added", obs + ", handler deadline=" + fmtTime(o.H.Dl, o.Ta, "t_call"), false
+			return "deadline-added", obs + ", handler deadline=" + fmtTime(o.H.Dl, o.Ta, "t_call"), hasTimeoutMD(c)
 		}
-		return "", obs + ", no deadline", false
+		return "", obs + ", no deadline", hasTimeoutMD(c)
 	}
 	obs += fmt.Sprintf(", caller deadline=t_call+%v", time.Duration(c.RemainingNs))
 	if !o.H.HasDl {
 		return "no-deadline", obs + ", handler has no deadline", true
 	}
 	obs += ", handler deadline=" + fmtTime(o.H.Dl, o.Ta, "t_call")
-	transit := o.H.T.Sub(o.Ta)
+	// transit = from the latest instant at which the request was known not to
+	// be built yet (t_base) to the instant inside the handler. A deadline that
+	// had run out by t_base counts from t_base: whatever is sent then can give
+	// the handler no more than the 1 ms granularity.
+	base := o.sendBase()
+	transit := o.H.T.Sub(base)
+	from := o.Dl
+	if from.Before(base) {
+		from = base
+	}
 	switch {
 	case o.H.Dl.Before(o.Ta):
 		return "past-deadline", obs, true
 	case o.H.Dl.Before(o.Dl.Add(-time.Millisecond)):
 		return "earlier-than-caller", obs, true
-	case o.H.Dl.After(o.Dl.Add(transit).Add(time.Millisecond)):
-		return "later-than-caller", obs, true
+	case o.H.Dl.After(from.Add(transit).Add(time.Millisecond)):
+		return "later-than-caller", obs + fmt.Sprintf(", transit=%v", transit), true
 	}
 	return "", obs, true
 }
 
-func clientFingerprint(c clientCase, clause string) string {
+// caseKey identifies a case of the client / e2e clauses.
+func caseKey(c clientCase, creds, md string) string {
+	return c.Kind + "|" + c.Path + "|" + c.Label + "|" + creds + "|" + md
+}
+
+// credsClass: how long credentials take is not part of a finding's identity,
+// that they take time is.
+func credsClass(c clientCase) string {
+	switch {
+	case c.Creds == "":
+		return ""
+	case c.CredsDelayNs == 0:
+		return "instant"
+	}
+	return "slow"
+}
+
+func mdClass(c clientCase) string {
+	switch {
+	case c.MDKey == "":
+		return ""
+	case hasTimeoutMD(c):
+		return timeoutKey
+	}
+	return "other"
+}
+
+// clientFingerprint names the case by (clause, path, duration) and by the
+// classes of the two further dimensions, each only if it is needed for the
+// finding: a class is left out when the same case without that dimension (which
+// ran earlier, simplest first) broke the same clause. failed records that.
+func clientFingerprint(c clientCase, clause string, failed map[string]bool) string {
+	cr, md := credsClass(c), mdClass(c)
+	if failed != nil {
+		failed[caseKey(c, cr, md)+"|"+clause] = true
+		if cr != "" && failed[caseKey(c, "", md)+"|"+clause] {
+			cr = ""
+		}
+		if md != "" && failed[caseKey(c, cr, "")+"|"+clause] {
+			md = ""
+		}
+	}
 	l := "remaining=" + c.Label
 	if c.NoDeadline {
 		l = "no-deadline"
+	}
+	if cr != "" {
+		l += "|creds=" + cr
+	}
+	if md != "" {
+		l += "|md=" + md
 	}
 	return fmt.Sprintf("C09|%s|%s|%s|%s", c.Kind, c.Path, l, clause)
 }
@@ -677,31 +859,92 @@ func main() {
 
 	// ---- client and end-to-end clauses
 	rems := remainingGrammar(thorough)
+	quickRems := map[string]bool{}
+	for _, r := range remainingGrammar(false) {
+		quickRems[r.Label] = true
+	}
+	// the further dimensions, simplest first: the plain call; then every
+	// (credentials in {none, at once}) x (metadata) pair; then credentials that
+	// take time x the bracketing metadata values
+	type dims struct {
+		cr       credsDim
+		md       mdDim
+		baseOnly bool // only the durations of the quick tier
+	}
+	var combos []dims
+	combos = append(combos, dims{cr: noCreds})
+	for _, cr := range []credsDim{noCreds, instantCreds} {
+		for _, md := range mdGrammar {
+			if cr.Delay < 0 && md.Key == "" {
+				continue
+			}
+			combos = append(combos, dims{cr: cr, md: md})
+		}
+	}
+	for _, cr := range slowCredsQuick {
+		for _, md := range mdGrammarSlow {
+			combos = append(combos, dims{cr: cr, md: md})
+		}
+	}
+	if thorough {
+		for _, cr := range slowCredsExtra {
+			combos = append(combos, dims{cr: cr, baseOnly: true})
+		}
+	}
+	failed := map[string]bool{}
+	slowMeasured, mdWithDl, mdWithoutDl, credsConsulted := 0, 0, 0, 0
+	sampled := map[string]bool{}
 	for _, kind := range []string{"client", "e2e"} {
 		for _, path := range []string{"unary", "stream"} {
-			for i := -1; i < len(rems); i++ {
-				c := clientCase{Kind: kind, Path: path}
-				if i < 0 {
-					c.NoDeadline, c.Label = true, "none"
-				} else {
-					c.RemainingNs, c.Label = int64(rems[i].D), rems[i].Label
-				}
-				evals++
-				var clause, obs string
-				var nontrivial bool
-				if kind == "client" {
-					clause, obs, nontrivial = checkClient(c)
-				} else {
-					clause, obs, nontrivial = checkE2E(c)
-				}
-				if nontrivial {
-					distinct[kind+"|"+path+"|"+c.Label] = true
-				}
-				if path == "unary" && (c.Label == "none" || c.Label == "100us" || c.Label == "1.5ms" || c.Label == "1h" || c.Label == "max") {
-					sample(c, obs)
-				}
-				if clause != "" {
-					rep.Violation(clientFingerprint(c, clause), fmt.Sprintf("%s %s, remaining %s: %s: %s", kind, path, c.Label, clause, obs), c)
+			for _, dm := range combos {
+				for i := -1; i < len(rems); i++ {
+					c := clientCase{Kind: kind, Path: path, MDKey: dm.md.Key, MDVals: dm.md.Vals}
+					if dm.cr.Delay >= 0 {
+						c.Creds, c.CredsDelayNs = dm.cr.Label, int64(dm.cr.Delay)
+					}
+					if i < 0 {
+						c.NoDeadline, c.Label = true, "none"
+					} else {
+						c.RemainingNs, c.Label = int64(rems[i].D), rems[i].Label
+					}
+					if dm.baseOnly && i >= 0 && !quickRems[c.Label] {
+						continue
+					}
+					evals++
+					var clause, obs string
+					var nontrivial bool
+					if kind == "client" {
+						clause, obs, nontrivial = checkClient(c)
+					} else {
+						clause, obs, nontrivial = checkE2E(c)
+					}
+					if nontrivial {
+						distinct[kind+"|"+path+"|"+c.Label+"|"+c.Creds+"|"+c.md().label()] = true
+						if c.Creds != "" && strings.Contains(obs, "credentials consulted") {
+							credsConsulted++
+							if c.CredsDelayNs > 0 {
+								slowMeasured++
+							}
+						}
+						if hasTimeoutMD(c) {
+							if c.NoDeadline {
+								mdWithoutDl++
+							} else {
+								mdWithDl++
+							}
+						}
+					}
+					plainSample := c.Creds == "" && c.MDKey == "" && (c.Label == "none" || c.Label == "100us" || c.Label == "1.5ms" || c.Label == "1h" || c.Label == "max")
+					dimSample := (c.Label == "none" || c.Label == "10ms" || c.Label == "1h") &&
+						(c.Creds == "30ms" && c.MDKey == "" || c.Creds == "" && (c.md().label() == timeoutKey+"=1n" || c.md().label() == timeoutKey+"=1H,1n") ||
+							c.Creds == "3ms" && c.md().label() == timeoutKey+"=1H")
+					if path == "unary" && (plainSample || dimSample) && !sampled[c.name()] {
+						sampled[c.name()] = true
+						sample(c, obs)
+					}
+					if clause != "" {
+						rep.Violation(clientFingerprint(c, clause, failed), fmt.Sprintf("%s: %s: %s", c.name(), clause, obs), c)
+					}
 				}
 			}
 		}
@@ -712,17 +955,29 @@ func main() {
 		"distinct_nontrivial": len(distinct),
 		"rule": "server: every string of the grammar (" + grammarText(thorough) + ") as the GRPC-Timeout value, plus the header absent, x {unary, streaming} handler through httpgrpc.Server.ServeHTTP on a recorder; " +
 			"non-trivial = header present and non-empty (the parse branch of contextFromHeaders runs) and the handler was reached so that ctx.Deadline() was observed; distinct by (handler kind, string). " +
-			"client / e2e: every remaining duration of the grammar (" + remainingText(thorough) + ") plus no deadline x {Invoke, NewStream} through a recording RoundTripper, and through HandlerRT(server); " +
-			"non-trivial = the context had a deadline (the encoding branch of headersFromContext runs) and the RoundTripper / the handler was reached; distinct by (clause, path, duration).",
-		"server_strings":       len(headers),
-		"server_strings_valid": nValid,
-		"remaining_durations":  len(rems),
-		"samples":              samples,
-		"exhaustive":           true,
+			"client / e2e: every remaining duration of the grammar (" + remainingText(thorough) + ") plus no deadline x {Invoke, NewStream} through a recording RoundTripper, and through HandlerRT(server), " +
+			"crossed with per-RPC " + credsText(thorough) + " and " + mdText() + ": the full cross product for credentials {none, at once} x metadata; credentials that take time (each case costs its delay on the clock) x metadata {none, " + mdGrammarSlow[1].label() + ", " + mdGrammarSlow[2].label() + "}, swept over every duration; " +
+			"non-trivial = the context had a deadline (the encoding branch of headersFromContext runs) or the metadata carried a grpc-timeout entry (the entry reaches the header map), and the RoundTripper / the handler was reached; distinct by (clause, path, duration, credentials, metadata). " +
+			"slow_credentials_measured counts the non-trivial cases in which GetRequestMetadata was entered and left with at least the delay between the two recorded instants; grpc_timeout_metadata_with/without_deadline count the non-trivial cases with such an entry.",
+		"server_strings":                         len(headers),
+		"server_strings_valid":                   nValid,
+		"remaining_durations":                    len(rems),
+		"credentials_metadata_combinations":      len(combos),
+		"metadata_values":                        len(mdGrammar),
+		"credentials_consulted":                  credsConsulted,
+		"slow_credentials_measured":              slowMeasured,
+		"grpc_timeout_metadata_with_deadline":    mdWithDl,
+		"grpc_timeout_metadata_without_deadline": mdWithoutDl,
+		"samples":                                samples,
+		"exhaustive":                             true,
 	}, []string{
 		"server side on httptest.ResponseRecorder, client side on a synthetic RoundTripper: net/http's own header handling (trimming of optional white space, rejection of control characters) is not in the loop, the parser sees the raw string",
 		"end to end, the request is detached from the caller's context before it reaches the server (as over a real connection), so the handler's deadline comes from the GRPC-Timeout header alone",
 		"deadlines 292 years or more ahead lose their monotonic clock reading inside package time; for those cases the bracketing comparison falls back to wall-clock readings and assumes the wall clock is not stepped backwards during the few microseconds of the case",
 		"client-side oracle demands what the statement says (within the 1 ms granularity either way, measured against instants around the call), not the particular rounding mode or unit",
+		"transit time starts when the per-RPC credentials have answered (grpc-go, the reference, computes the timeout it sends after GetRequestMetadata returned); the time credentials take is produced with time.Sleep inside GetRequestMetadata but judged only by the instants recorded at its entry and return, there is no tolerance anywhere",
+		"a deadline that runs out while the credentials are being obtained: the request may not be sent at all, or sent with the minimal timeout; the handler then may get no more than the 1 ms granularity counted from the return of the credentials",
+		"a grpc-timeout entry supplied by the credentials themselves (rather than by the caller's metadata) is not enumerated: grpc-go sends such an entry after its own and its server lets the last one win, so the reference does not define it; upper-case spellings of the key are not valid metadata keys for the reference either",
+		"when several GRPC-Timeout values are sent the client clause demands that each of them complies (servers differ in which one they read); the end-to-end clause judges what this package's server makes of them",
 	}))
 }
